@@ -49,7 +49,7 @@ def check_duplicate_impl(self: "any", fcp: "ref:FcpV2", left: "ref:Impl") -> "re
     ensures(result.is_ok() == (not dup_impl(fcp, left)))
 
 
-INLINE = ["fcp.error:error", "fcp.error:FcpError.__init__", "fcp.error:FcpError.results_in", "fcp.specs.v2:FcpV2.get_types",
+INLINE = ["fcp.specs.v2:FcpV2.get", "fcp.specs.v2:_flatten", "fcp.error:error", "fcp.error:FcpError.__init__", "fcp.error:FcpError.results_in", "fcp.specs.v2:FcpV2.get_types",
           "fcp.verifier:make_general_verifier", "fcp.verifier:Verifier.__init__", "fcp.verifier:Verifier.register",
           "fcp.verifier:register", "fcp_dbc.generator:Generator.register_checks",
           "fcp_dbc.generator:Generator.__init__", "fcp_can_c.generator:Generator.register_checks",
@@ -66,14 +66,6 @@ def check_device_contains_services(self: "any", fcp: "ref:FcpV2", device: "ref:D
          invariant=lambda it: forall(0, it, lambda k: device_ok(fcp, fcp.devices[k])))
     loop(1, over="device_services",
          invariant=lambda it: forall(0, it, lambda j: seq_contains(service_names(fcp), device_services[j])))
-
-
-@assumed("fcp.specs.v2:FcpV2.get")
-def fcp_get(self: "ref:FcpV2", category: "str") -> "maybe[seq[ref]]":
-    note("FcpV2.get(category) returns the node list of the category; for 'field' the (struct, field) pairs of all structs "
-         "(modelled as abstract FieldNode values: spec nodes(fcp, 'field')); unknown categories give Nothing")
-    ensures(result.is_some() == known_category(category))
-    ensures(implies(known_category(category), result.unwrap() == nodes(self, category)))
 
 
 @contract("fcp.verifier:Verifier.run_checks", inline=True)
